@@ -289,7 +289,11 @@ sqf::runtime::runtime::result sqf::runtime::runtime::execute(sqf::runtime::runti
         {
             m_is_exit_requested = false;
             m_is_halt_requested = false;
-            auto scopeNum = m_context_active->frames_size() - 1;
+            if (!m_contexts.empty() && !m_context_active)
+            { // nothing was executed yet: the first script is the one being debugged
+                m_context_active = m_contexts.front();
+            }
+            auto scopeNum = (m_context_active && m_context_active->frames_size() > 0) ? m_context_active->frames_size() - 1 : 0;
             m_state = state::running;
             while (!m_is_exit_requested && !m_is_halt_requested && !m_contexts.empty())
             {
@@ -498,9 +502,13 @@ sqf::runtime::runtime::result sqf::runtime::runtime::execute(sqf::runtime::runti
             bool success;
             m_state = state::running;
             std::optional<diagnostics::diag_info> dinf;
+            if (!m_contexts.empty() && !m_context_active)
+            { // nothing was executed yet: the first script is the one being debugged
+                m_context_active = m_contexts.front();
+            }
             while (!m_is_exit_requested && !m_is_halt_requested && !m_contexts.empty())
             {
-                if (!dinf.has_value())
+                if (!dinf.has_value() && !m_context_active->empty())
                 {
                     auto next_inst = m_context_active->current_frame().peek(success);
                     if (success)
@@ -515,7 +523,7 @@ sqf::runtime::runtime::result sqf::runtime::runtime::execute(sqf::runtime::runti
                 {
                     break;
                 }
-                if (dinf.has_value())
+                if (dinf.has_value() && !m_context_active->empty())
                 {
                     auto next_inst = m_context_active->current_frame().peek(success);
                     if (success && dinf.value() != (*next_inst)->diag_info())
